@@ -148,6 +148,15 @@ func build(tier string) []*vkit.Scenario {
 		add(q.name(), queuedBody(q), q.p, ntQ)
 	}
 
+	// ---- (c) with negotiated compression: bounded queue x frame limit x deflated length (zqueue.go)
+	ntZ := func(m map[string]int) bool {
+		return m["messages_on_wire"] > 0 && m["z_compressed_messages_on_wire"] > 0 &&
+			(m["z_followup_accepted"] > 0 || m["close_racing_writer"] > 0 || m["close_cut_off_messages"] > 0)
+	}
+	for _, q := range zPlan(thorough) {
+		add(q.name(), queuedBody(q), q.p, ntZ)
+	}
+
 	// ---- (a) callback order on the engine
 	ntA := func(m map[string]int) bool { return m["messages_delivered"] > 0 && m["onclose_runs"] > 0 }
 	for _, m := range ekit.Modes {
